@@ -38,6 +38,123 @@ def modules_of(o, acc):
     return acc
 
 
+def lang_outcome(p, s, L):
+    """outcome of a parser built with language=L on s: ('OK', tree, modules) / ('ERR', class, pos) / ('EXC', class)"""
+    import pyModelChecking.parser as PP
+    try:
+        with warnings.catch_warnings():
+            warnings.simplefilter('ignore')
+            o = p(s)
+    except (PP.UnexpectedToken, PP.UnexpectedCharacters) as e:
+        return ('ERR', type(e).__name__, e.pos)
+    except Exception as e:
+        return ('EXC', type(e).__name__)
+    try:
+        return ('OK', from_obj(o), sorted(modules_of(o, set())))
+    except RecursionError:
+        return ('OK', None, sorted(modules_of(o, set())))
+
+
+LANG_TEXTS = ['p and not q', 'A G (p --> A F q)', 'A F G q', 'A (p U X q)', 'E X p', 'not (p or true)', 'E (p U (q and A X p))',
+              'A (F p or G q)', 'X p', '(p R q)', 'A F G q )', 'p and and', 'A G (p --> A F $)']
+
+
+def _reverse_child():
+    """fresh interpreter: for every notation N and language L the parser for L is created FIRST, then the default one"""
+    import json
+    out = {}
+    for N in V.LOGICS:
+        for L in V.LOGICS:
+            if L == N:
+                continue
+            try:
+                with warnings.catch_warnings():
+                    warnings.simplefilter('ignore')
+                    pl = lang(N).Parser(language=lang(L))
+                    pd = lang(N).Parser()
+            except Exception as e:
+                out['%s/%s' % (N, L)] = ['ctor ' + type(e).__name__]
+                continue
+            out['%s/%s' % (N, L)] = [[lang_outcome(pl, s, L), lang_outcome(pd, s, N)] for s in LANG_TEXTS]
+    print(json.dumps(out))
+
+
+def language_stream(res, rng, quick, parsers, strings):
+    """`N.Parser(language=L)`: N's notation, formulas built in L.  Expected (composition of the two models, both tied
+    and proved elsewhere): where N's default parser reports a syntax error at p, the same error unless a constructor of
+    L refused an already reduced subformula first (TypeError / AttributeError); where it accepts with tree t, exactly
+    what building t in L gives (C08's `construct`): the same tree made of L's classes only, or a constructor error.
+    History: the default parser exists BEFORE the language parser here, and AFTER it in a fresh interpreter."""
+    import json
+    import os
+    import subprocess
+    import sys
+    texts = list(LANG_TEXTS) + [s for _, s in rng.sample(strings, min(len(strings), 300 if quick else 3000))
+                                if not any(0xD800 <= ord(c) <= 0xDFFF for c in s)]
+    problems, n = [], 0
+    clines, cmeta = [], []
+    for N in V.LOGICS:
+        for L in V.LOGICS:
+            if L == N:
+                continue
+            with warnings.catch_warnings():
+                warnings.simplefilter('ignore')
+                pl = lang(N).Parser(language=lang(L))
+            for s in texts:
+                d = lang_outcome(parsers[N], s, N)
+                a = lang_outcome(pl, s, L)
+                n += 1
+                if d[0] == 'EXC':
+                    continue                      # reported by the main stream
+                if d[0] == 'ERR':
+                    if not (a == d or (a[0] == 'EXC' and a[1] in ('TypeError', 'AttributeError'))):
+                        problems.append(('%s.Parser(language=%s)(%r): %s, while %s.Parser() reports %s' % (N, L, s, a, N, d), N, L, s))
+                elif d[1] is not None:
+                    clines.append('CONSTRUCT|%s|%s' % (L, sexpr(d[1])))
+                    cmeta.append((N, L, s, d[1], a))
+    for (N, L, s, t, a), m in zip(cmeta, lean_batch(clines)):
+        m = m.strip()
+        if m.startswith('OK'):
+            want = ('OK', t, ['pyModelChecking.%s.language' % L])
+        else:
+            # the tree is not a formula of L: some constructor refuses; WHICH one is met first depends on the order of
+            # construction (the parser builds bottom-up, `construct` looks the class up first), so only the kind is fixed
+            want = a if (a[0] == 'EXC' and a[1] in ('TypeError', 'AttributeError')) else ('EXC', 'TypeError|AttributeError')
+        if a != want:
+            problems.append(('%s.Parser(language=%s)(%r) gives %s; building the parsed tree in %s gives %s'
+                             % (N, L, s, a if a[0] != 'OK' else ('OK', sexpr(a[1]) if a[1] else None, a[2]), L, m), N, L, s))
+    # reverse creation order, fresh interpreter
+    here = os.path.dirname(os.path.dirname(os.path.abspath(__file__)))
+    p = subprocess.run([sys.executable, '-c',
+                        'import sys; sys.path.insert(0, %r); from checks import c10; c10._reverse_child()' % here],
+                       stdout=subprocess.PIPE, stderr=subprocess.PIPE, text=True,
+                       env=dict(os.environ, PYTHONPATH=os.pathsep.join(x for x in sys.path if x)))
+    rev = 0
+    if p.returncode != 0:
+        problems.append(('the reverse-order scenario crashed: ' + p.stderr[-300:], '-', '-', ''))
+    else:
+        out = json.loads(p.stdout.strip().splitlines()[-1])
+        for N in V.LOGICS:
+            for L in V.LOGICS:
+                if L == N:
+                    continue
+                with warnings.catch_warnings():
+                    warnings.simplefilter('ignore')
+                    pl = lang(N).Parser(language=lang(L))
+                got = out['%s/%s' % (N, L)]
+                for s, pair in zip(LANG_TEXTS, got):
+                    rev += 1
+                    here_l = json.loads(json.dumps(lang_outcome(pl, s, L)))
+                    here_d = json.loads(json.dumps(lang_outcome(parsers[N], s, N)))
+                    if pair[0] != here_l or pair[1] != here_d:
+                        problems.append(('creation order matters: with %s.Parser(language=%s) created first and %s.Parser() second, '
+                                         '%r gives %s / %s; in the other order %s / %s' % (N, L, N, s, pair[0], pair[1], here_l, here_d), N, L, s))
+    for msg, N, L, s in problems[:3]:
+        res.violation(msg, {'notation': N, 'language': L, 'text': s,
+                            'history': 'see message: default parser first (in process) / language parser first (fresh interpreter)'})
+    return {'language_parameter_cases': n, 'language_parameter_reverse_order_cases': rev, 'language_parameter_problems': len(problems)}
+
+
 def run(res):
     import pyModelChecking.parser as PP
     rng = rng_for('C10')
@@ -99,6 +216,7 @@ def run(res):
                               {'logic': M, 'text': s, 'stream': stream, 'impl': a, 'model': m})
     for d in direct[:3]:
         res.violation(d[0], {'logic': d[1], 'text': d[2]})
+    res.coverage.update(language_stream(res, rng_for('C10/language'), quick, parsers, strings))
     problems = proof_coverage(res, THEOREMS, MODULES)
     for p in problems:
         res.violation('proof obligation no longer checks: ' + p, {'theorem_or_module': p}, no_input=True)
